@@ -131,8 +131,8 @@ func (t tupleVariation) calculateScalar(coords []VarCoord, sharedTuples [][]VarC
 	startTuple, endTuple := t.IntermediateTuples[0].Values, t.IntermediateTuples[1].Values
 	hasIntermediate := startTuple != nil
 
-	// invalid font: the tuples have less values than the number of axes in 'fvar'
-	if len(peakTuple) < endIdx || (hasIntermediate && (len(startTuple) < endIdx || len(endTuple) < endIdx)) {
+	// invalid font: the tuples have more or less values than the number of axes in 'fvar'
+	if len(coords) < endIdx || len(peakTuple) < endIdx || (hasIntermediate && (len(startTuple) < endIdx || len(endTuple) < endIdx)) {
 		return 0.
 	}
 
